@@ -464,6 +464,7 @@ Section Renaming.
   Hypothesis Hroot : e_root en' = e_root en.
   Hypothesis Hvars : e_vars en' = e_vars en.
   Hypothesis Hfuns : e_funs en' = e_funs en.
+  Hypothesis Hasis : e_asis en' = e_asis en.
   (** the renamed prefix is bound, in the renamed bindings, to what the prefix was bound to *)
   Hypothesis Hns : forall p, assoc_str (rho p) (e_ns en') = assoc_str p (e_ns en).
 
@@ -477,7 +478,7 @@ Section Renaming.
   Proof.
     unfold call_function. rewrite rn_resolve_q. destruct (resolve_q en q) as [qn|]; [|reflexivity].
     rewrite Hfuns. destruct (assoc_q qn (e_funs en)); [reflexivity|].
-    destruct (q_space qn); [|reflexivity]. unfold call_builtin. now rewrite Hdoc.
+    destruct (q_space qn); [|reflexivity]. unfold call_builtin. now rewrite Hdoc, Hasis.
   Qed.
 
   Lemma eval_args_ext (fs gs : list (ctx -> res value)) c :
